@@ -847,6 +847,12 @@ class DistributedShampoo(torch.optim.Optimizer):
                     masked_filtered_grad_list,
                     bias_correction1,
                 )
+            elif beta3 == beta1:
+                # masked_filtered_grad_list aliases the filtered gradient state here. Return copies so that
+                # the in-place operations applied to the search directions later cannot corrupt the state.
+                masked_filtered_grad_list = tuple(
+                    filtered_grad.clone() for filtered_grad in masked_filtered_grad_list
+                )
         else:
             masked_filtered_grad_list = state_lists[MASKED_BLOCKED_GRADS]
 
